@@ -202,9 +202,18 @@ class World:
             _unmute_rich()
         elif log_level < SILENT:
             _mute_rich()
-        self.mgr = M.MessageManager(**kw)
         if console:
+            import contextlib
+            import io
+
+            # (the constructor already writes a record to the console it has just configured)
+            with contextlib.redirect_stdout(io.StringIO()), contextlib.redirect_stderr(io.StringIO()):
+                self.mgr = M.MessageManager(**kw)
             self._buffer_console()
+        else:
+            self.mgr = M.MessageManager(**kw)
+        if console:
+            pass
         else:
             self._silence_console()
         self.thread = threading.Thread(target=self._main, name="vf-mgr", daemon=True)
